@@ -86,9 +86,13 @@ const (
 )
 
 var c01Extras = [][]string{
-	{}, {"Expect: 100-continue"}, {"Connection: close"}, {"Connection: keep-alive"}, {"X-A: b", " c"}, {"X-A b"}, {": v"},
+	{}, {"Expect: 100-continue"}, {"X-A: b", " c"}, {"X-A b"}, {": v"},
 	{"X-A: b\x00c"}, {"X A: b"}, {"X-A: Content-Length: 7"},
 }
+
+// Connection header line: value x position relative to the framing headers (Content-Length / Transfer-Encoding).
+// Index 0 = absent; 1..n = before the framing headers; n+1..2n = after them (last line of the head).
+var c01ConnVals = []string{"Connection: keep-alive", "Connection: close", "Connection: Keep-Alive"}
 
 const c01Embedded = "GET /smug HTTP/1.1\r\nHost: h\r\n\r\n"
 
@@ -114,9 +118,9 @@ var c01Bodies = []string{
 const c01Canary = "GET /cn HTTP/1.1\r\nHost: h\r\n\r\n"
 
 // slots of one request, in this order
-var c01Dims = []int{len(c01Methods), len(c01Targets), len(c01Versions), c01RLCount, len(c01Hosts), len(c01CLs), 2 * len(c01TEs), c01LECount, len(c01Extras), len(c01Bodies)}
+var c01Dims = []int{len(c01Methods), len(c01Targets), len(c01Versions), c01RLCount, len(c01Hosts), len(c01CLs), 2 * len(c01TEs), c01LECount, len(c01Extras), len(c01Bodies), 1 + 2*len(c01ConnVals)}
 
-const c01NSlots = 10
+const c01NSlots = 11
 
 func c01Multipart(epilogue int) string {
 	return "--b\r\nContent-Disposition: form-data; name=\"f\"\r\n\r\nv\r\n--b--\r\n" + strings.Repeat("e", epilogue)
@@ -182,12 +186,25 @@ func c01BuildRequest(idx []int, ord int) (b []byte, ok bool) {
 	lines = append(lines, c01Hosts[idx[4]]...)
 	lines = append(lines, c01Extras[idx[8]]...)
 	lines = append(lines, extraHdr...)
+	connLine, connAfter := "", false
+	if c := idx[10]; c > 0 {
+		connLine, connAfter = c01ConnVals[(c-1)%len(c01ConnVals)], c > len(c01ConnVals)
+		if connAfter && len(cl) == 0 && len(te) == 0 {
+			return nil, false // position is only a choice when there are framing headers
+		}
+	}
+	if connLine != "" && !connAfter {
+		lines = append(lines, connLine)
+	}
 	if teFirst {
 		lines = append(lines, te...)
 		lines = append(lines, cl...)
 	} else {
 		lines = append(lines, cl...)
 		lines = append(lines, te...)
+	}
+	if connLine != "" && connAfter {
+		lines = append(lines, connLine)
 	}
 	var out bytes.Buffer
 	out.WriteString(pre)
@@ -861,14 +878,14 @@ func TestVerif_C01(t *testing.T) {
 	devPair := vrt.Pick(r, 2, 2)
 	cfgs := c01AllCfgs()
 	r.Rule(fmt.Sprintf("pipelines [A, canary] with <=%d and [A, B, canary] with <=%d non-canonical slot choices in total; slots per request: method(%d) target(%d) version(%d) "+
-		"request-line shape(%d) Host(%d) Content-Length lines(%d) Transfer-Encoding lines x order(%d) line endings(%d) extra header(%d) body bytes(%d); each pipeline x 16 flag "+
+		"request-line shape(%d) Host(%d) Content-Length lines(%d) Transfer-Encoding lines x order(%d) line endings(%d) extra header(%d) body bytes(%d) Connection line {absent, keep-alive, close, Keep-Alive} x {before, after the framing headers}(%d); each pipeline x 16 flag "+
 		"combinations (ReduceMemoryUsage, DisableHeaderNamesNormalizing, GetOnly, DisablePreParseMultipartForm) x ReadBufferSize {128,4096} delivered whole, plus {1-byte dribble, one split inside "+
 		"the first head's final line terminator; thorough: every split offset for <=1-deviation pipelines} x {ReduceMemoryUsage} x ReadBufferSize {128,4096} (two-request and 3-deviation pipelines: 16 flag "+
 		"combinations whole at 4096, {ReduceMemoryUsage} whole at 128 and dribbled at 4096), through Server.ServeConn on a scripted connection. Oracle: own RFC 9112 framing reference "+
 		"(Appendix B; lenient choices accept-either, a stop by the server is always admissible) evaluated at the offset where the previous dispatched message ended: method, target, body must be an "+
 		"admissible interpretation; after a must-close class message no further dispatch, response or Read. The reference is cross-validated against net/http.ReadRequest at every offset of its own walk. "+
 		"Non-trivial: the reference walk meets a body, a leniency, a must-close, reject or incomplete verdict.",
-		devSingle, devPair, c01Dims[0], c01Dims[1], c01Dims[2], c01Dims[3], c01Dims[4], c01Dims[5], c01Dims[6], c01Dims[7], c01Dims[8], c01Dims[9]))
+		devSingle, devPair, c01Dims[0], c01Dims[1], c01Dims[2], c01Dims[3], c01Dims[4], c01Dims[5], c01Dims[6], c01Dims[7], c01Dims[8], c01Dims[9], c01Dims[10]))
 	r.Assume("net/http.ReadRequest (Go standard library) as second framing reference; differences to it are limited to the documented rule list in c01_framing_test.go",
 		"vnet.Conn: one Read returns at most one script chunk; ServeConn is synchronous")
 	r.Set("max_deviations_single", devSingle)
